@@ -76,7 +76,7 @@ def run_dir(tag):
 
 
 def tlc(module, cfg_text=None, cfg=None, workers=None, simulate=None, depth=None, seed=None,
-        env=None, timeout=900, tag=None, coverage=False, deque=False, dump=None, keep=False):
+        env=None, timeout=900, tag=None, coverage=False, deque=False, dump=None, keep=False, cont=False):
     """Run TLC on spec/<module>.tla with a cfg (text written to scratch, or a file in spec/)."""
     tag = tag or module
     d = run_dir(tag)
@@ -101,6 +101,8 @@ def tlc(module, cfg_text=None, cfg=None, workers=None, simulate=None, depth=None
             cmd += ['-seed', str(seed)]
     if coverage:
         cmd += ['-coverage', '1']
+    if cont:
+        cmd.append('-continue')
     if dump:
         cmd += ['-dump', dump]
     cmd.append(module + '.tla')
